@@ -215,24 +215,24 @@ pub fn main(args: &Args) -> i32 {
     let quick = args.tier == vcommon::Tier::Quick;
     let scenarios: Vec<(&str, Params, Vec<Option<usize>>)> = vec![
         (
-            "2x1-full-dfs",
+            "2x1",
             Params { senders: 2, per_sender: 1, fd_sender: None, pending_budget: 1, api: false },
-            if quick { vec![None] } else { vec![None] },
+            if quick { vec![Some(8)] } else { vec![Some(10), Some(11)] },
         ),
         (
             "2x2",
             Params { senders: 2, per_sender: 2, fd_sender: Some(1), pending_budget: 2, api: false },
-            if quick { vec![Some(4)] } else { vec![Some(6), Some(7)] },
+            if quick { vec![Some(6)] } else { vec![Some(8), Some(9)] },
         ),
         (
             "3x1-fd",
             Params { senders: 3, per_sender: 1, fd_sender: Some(0), pending_budget: 2, api: false },
-            if quick { vec![Some(4)] } else { vec![Some(6), Some(7)] },
+            if quick { vec![Some(6)] } else { vec![Some(8), Some(9)] },
         ),
         (
             "2x2-api",
             Params { senders: 2, per_sender: 2, fd_sender: None, pending_budget: 2, api: true },
-            if quick { vec![Some(4)] } else { vec![Some(6)] },
+            if quick { vec![Some(6)] } else { vec![Some(8)] },
         ),
     ];
     for (name, p, bounds) in scenarios {
